@@ -394,13 +394,32 @@ def contract_tokens(chunks):
     return out
 
 
+def caller_contract_tokens(chunks):
+    """What a caller relies on: the contract without its `decreases` clause (termination is the proving unit's business; a stub
+    has no body to terminate) and without a trailing comma."""
+    toks = contract_tokens(chunks)
+    out = []
+    skip = False
+    for t in toks:
+        if t == 'decreases':
+            skip = True
+            continue
+        if skip and t in ('requires', 'ensures', 'recommends'):
+            skip = False
+        if not skip:
+            out.append(t)
+    while out and out[-1] == ',':
+        out.pop()
+    return out
+
+
 def check_stub_contract(unit_path, b, chunks):
     other = os.path.join(os.path.dirname(unit_path), b['proved_in'] + '.rs')
     ou = parse_unit(other)
     for seg in ou['segments']:
         if seg[0] == 'block' and not seg[1].get('stub') and seg[1]['file'] == b['file'] and seg[1]['name'] == b['name']:
             oc = split_chunks('\n'.join(seg[1]['lines']))
-            if contract_tokens(oc) != contract_tokens(chunks):
+            if caller_contract_tokens(oc) != caller_contract_tokens(chunks):
                 raise ExtractError('%s: the contract of stub %s::%s differs from the one proved in unit %s' % (unit_path, b['file'], b['name'], b['proved_in']))
             return
     raise ExtractError('%s: stub %s::%s: no such fn block in unit %s' % (unit_path, b['file'], b['name'], b['proved_in']))
